@@ -146,6 +146,16 @@ func c03Record(tier string, seed int64, emit func(interface{})) {
 	if tier == "thorough" {
 		n, maxSeq, maxFeats = 400, 100000, 40
 	}
+	sweep := 0
+	locusSweep(func() { // every division x molecule type, as parsed image and as assembled structure in turn
+		lines, want := genGbRecord(rng, 130, 2)
+		sweep++
+		if sweep%2 == 0 {
+			c03One(genbank.Parse([]byte(strings.Join(lines, "\n")+"\n")), 0, false, emit)
+		} else {
+			c03One(assemble(want, sweep%4 == 1), 1+sweep%4/2, false, emit)
+		}
+	})
 	for i := 0; i < n; i++ {
 		ms := 2000
 		if i%5 == 0 {
